@@ -7,6 +7,7 @@ import Falcon.Model.KeygenSkel
 import Falcon.Lemmas.PublicKey
 import Falcon.Lemmas.EntrySound
 import Falcon.Lemmas.KeygenLengths
+import Falcon.Lemmas.EntryMultiple
 
 /-!
 # C04 — generated key pairs are valid NTRU trapdoors (algebraic core)
@@ -188,6 +189,18 @@ theorem babai_reduce_i32_sound_in_window {R : Type} [CommRing R] (chk : Bool) (d
       ∀ (ρ : R), ρ ^ (2 ^ d) = -1 →
         RingZ.ev f ρ * RingZ.ev b ρ - RingZ.ev g ρ * RingZ.ev a ρ = RingZ.ev f ρ * RingZ.ev cG ρ - RingZ.ev g ρ * RingZ.ev cF ρ :=
   Keygen.babaiI32_inv chk d hd hd1 f g cF cG lf lg h1 h2 hw
+
+/-- … and changes (F, G) only by an integer-polynomial multiple of (f, g) (C17's first sentence for the 32-bit version,
+    inside the window): the loop returns (F − K⋆f, G − K⋆g) for one integer polynomial K, coefficient for coefficient -/
+theorem babai_reduce_i32_changes_by_a_multiple_in_window (chk : Bool) (d : Nat) (hd : d ≤ 10) (hd1 : 1 ≤ d) (size : Nat)
+    (f g : List Int) (lf : f.length = 2 ^ d) (lg : g.length = 2 ^ d) (pf : Keygen.inP f = true) (pg : Keygen.inP g = true)
+    (fStar gStar den : List FftFlt.C) (hfs : fStar.length = 2 ^ d) (hgs : gStar.length = 2 ^ d) (hden : den.length = 2 ^ d)
+    (fuel : Nat) (cF cG : List Int) (h1 : cF.length = 2 ^ d) (h2 : cG.length = 2 ^ d)
+    (hw : Keygen.babaiI32Window (2 ^ d) d size f g fStar gStar den fuel cF cG = true) :
+    ∃ okf a b K, Keygen.babaiI32Loop chk d size (Zp.ntt d (Keygen.toZp' f)) (Zp.ntt d (Keygen.toZp' g)) fStar gStar den fuel cF cG
+        = .ok (okf, a, b) ∧ K.length = 2 ^ d ∧
+      a = RingZ.subL cF (RingZ.negacyc (2 ^ d) K f) ∧ b = RingZ.subL cG (RingZ.negacyc (2 ^ d) K g) :=
+  Keygen.babaiI32Loop_multiple chk d hd hd1 size f g lf lg pf pg fStar gStar den hfs hgs hden fuel cF cG h1 h2 hw
 
 /-- **`ntru_solve_entrypoint` returns only solutions of the NTRU equation inside its window**: the recursion below it is
     sound unconditionally (`model_ntru_solve_sound`); the lifting products and the reduction at the top run in 32 bits
